@@ -15,19 +15,20 @@ func init() {
 }
 
 const (
-	c08Planner = "app/server/gateway/bucket_planner.go"
-	c08Exec    = "app/server/gateway/bucket_exec.go"
-	c08Gateway = "app/server/gateway/gateway.go"
-	c08Native  = "app/server/gateway/filter_native.go"
-	c08Filter  = "app/server/gateway/filter.go"
-	c08Bucket  = "app/core/hydra/swamp/bucket/bucket.go"
-	c08Canon   = "app/core/hydra/swamp/bucket/valuecanon/valuecanon.go"
+	c08Planner  = "app/server/gateway/bucket_planner.go"
+	c08Exec     = "app/server/gateway/bucket_exec.go"
+	c08Gateway  = "app/server/gateway/gateway.go"
+	c08Native   = "app/server/gateway/filter_native.go"
+	c08Filter   = "app/server/gateway/filter.go"
+	c08Bucket   = "app/core/hydra/swamp/bucket/bucket.go"
+	c08Canon    = "app/core/hydra/swamp/bucket/valuecanon/valuecanon.go"
+	c08BeaconGo = "app/core/hydra/swamp/beacon/beacon.go"
 )
 
 var c08Tris = []string{"excludesSpecialPaths", "planOrBypassOnSubGroups", "planShape", "scanEqCanonical",
 	"bucketPagingAfterFilter", "scanPagingAfterFilter", "labelReattach", "pagedQueriesBypass", "bucketChecksAttr",
 	"lookupInDedupes", "unionDedupes", "bucketWindowTimeOnly", "execPreconditions", "extractorsStandard", "canonStandard", "scanLeafStandard",
-	"bucketNotifyInsert", "bucketNotifyUpdate", "bucketNotifyDelete", "bucketPendingReplayed", "readerDrainsInFlight", "bucketLifecycleStandard"}
+	"bucketNotifyInsert", "bucketNotifyUpdate", "bucketNotifyDelete", "bucketPendingReplayed", "readerDrainsInFlight", "bucketNotifyAfterAdd", "bucketLifecycleStandard", "windowConversionAlike"}
 
 var c08OpNames = map[string][2]string{ // proto name → (Lean constructor, show)
 	"hydrapb.Relational_EQUAL": {".eq", "eq"}, "hydrapb.Relational_NOT_EQUAL": {".ne", "ne"},
@@ -167,46 +168,78 @@ func c08Plan(fs *Facts, f *File) {
 		f.Contains(and.Body, "for i, sub := range group.GetSubGroups() { subPlan := PlanFilter(sub) if subPlan.Mode != PlanModeOrUnion { continue } return Plan{ Mode: PlanModeAnd, Hints: subPlan.Hints, Residual: removeSubGroupAt(group, i), } }") &&
 		f.Contains(or.Body, "for _, leg := range group.GetFilters() { hint, ok := indexableHint(leg) if !ok { return Plan{Mode: PlanModeBypass} } hints = append(hints, hint) }") &&
 		f.Contains(or.Body, "if len(hints) == 0 { return Plan{Mode: PlanModeBypass} } return Plan{Mode: PlanModeOrUnion, Hints: hints, Residual: nil}")
+	shape = shape && c08ResidualCarriesAll(f)
 	if shape {
 		fs.Tri("planShape", Yes, c08At(c08Planner, f, pf))
 	}
 }
 
-func c08Stream(fs *Facts, f *File) {
-	fd := f.Func("Gateway", "GetByIndexStream")
-	if fd == nil {
-		return
-	}
-	c07Canon(fd, []string{"g", "in", "stream", "swampName", "err", "hydraInterface", "swampInterface", "fromTime", "toTime", "beaconType",
-		"order", "filters", "plan", "treasures", "residualFilters", "candidates", "err", "maxResults", "includeMap", "excludeMap",
-		"needsMeta", "matchCount", "treasureInterface", "key", "included", "excluded", "matched", "meta", "resp", "t", "err"})
-	where := c08At(c08Gateway, f, fd)
-	src := f.Str(fd.Body)
+// The route logic exists twice in the gateway: GetByIndexStream and (per query, inside a function
+// literal) GetByIndexStreamFromMany.  The facts are read off each copy; a fact is set only when both
+// copies give the same value.
+func c08StreamFactsOf(src, maxVar string) map[string]Tri {
+	out := map[string]Tri{}
 	steps := "candidates := collectBucketCandidates(swampInterface, plan.Hints) candidates = applyTimeRange(candidates, beaconType, fromTime, toTime) sortCandidates(candidates, beaconType, order) treasures = applyFromLimit(candidates, in.GetFrom(), in.GetLimit()) residualFilters = plan.Residual"
 	gateOld := "if plan.Mode != PlanModeBypass && bucketExecPreconditions(beaconType) { "
 	gateNew := "if plan.Mode != PlanModeBypass && bucketExecPreconditions(beaconType) && in.GetFrom() == 0 && in.GetLimit() == 0 { "
 	relabel := " if hasAnyLabels(filters) { residualFilters = filters }"
 	scan := "treasures, err = swampInterface.GetTreasuresByBeacon( beaconType, order, in.GetFrom(), in.GetLimit(), fromTime, toTime)"
-	if !strings.Contains(src, "plan := PlanFilter(filters)") {
-		return
+	if !strings.Contains(src, "plan := PlanFilter(filters)") || !strings.Contains(src, "filters := in.GetFilters()") ||
+		!strings.Contains(src, "fromTime, toTime := parseOptionalTimestamps(in.GetFromTime(), in.GetToTime())") ||
+		!strings.Contains(src, "beaconType := inputIndexTypeToBeaconType(in.GetIndexType()) order := inputOrderTypeToBeaconOrderType(in.GetOrderType())") {
+		return out
 	}
 	gated := strings.Contains(src, gateNew+steps)
 	if gated || strings.Contains(src, gateOld+steps) {
-		fs.Tri("bucketPagingAfterFilter", No, where)
-		fs.Tri("pagedQueriesBypass", TriOf(gated), where)
-		fs.Tri("bucketChecksAttr", No, where) // refined by c08ExecFacts
+		out["bucketPagingAfterFilter"] = No
+		out["pagedQueriesBypass"] = TriOf(gated)
+		out["bucketChecksAttr"] = No // refined by c08ExecFacts
 	}
-	if strings.Contains(src, scan) && strings.Contains(src, "residualFilters = filters } maxResults") {
-		fs.Tri("scanPagingAfterFilter", No, where)
+	if strings.Contains(src, scan) && strings.Contains(src, "residualFilters = filters } "+maxVar+" := in.GetMaxResults()") {
+		out["scanPagingAfterFilter"] = No
 	}
 	if strings.Contains(src, "needsMeta := hasAnyLabels(residualFilters)") &&
 		strings.Contains(src, "matched, meta = evaluateNativeFilterGroupWithMeta(treasureInterface, residualFilters)") &&
+		strings.Contains(src, "matched = evaluateNativeFilterGroup(treasureInterface, residualFilters)") &&
 		!strings.Contains(src, "plan.Hints[") && strings.Count(src, "MatchedLabels") == 1 {
 		switch {
 		case strings.Contains(src, steps+relabel+" } else {"):
-			fs.Tri("labelReattach", Yes, where)
+			out["labelReattach"] = Yes
 		case strings.Contains(src, steps+" } else {"):
-			fs.Tri("labelReattach", No, where)
+			out["labelReattach"] = No
+		}
+	}
+	return out
+}
+
+func c08Stream(fs *Facts, f0 *File) {
+	if f0.Func("Gateway", "GetByIndexStream") == nil || f0.Func("Gateway", "GetByIndexStreamFromMany") == nil {
+		return
+	}
+	where0 := c08At(c08Gateway, f0, f0.Func("Gateway", "GetByIndexStream"))
+	whereM := c08At(c08Gateway, f0, f0.Func("Gateway", "GetByIndexStreamFromMany"))
+	// one level of helper calls resolved (a `residualFor(plan, filters)` in place of the two statements is the same code)
+	f, fd := c07Inlined(f0, "Gateway", "GetByIndexStream", c08StreamVocabulary...)
+	f2, fm := c07Inlined(f0, "Gateway", "GetByIndexStreamFromMany", c08StreamVocabulary...)
+	if fd == nil || fm == nil {
+		return
+	}
+	c07Canon(fd, []string{"g", "in", "stream", "swampName", "err", "hydraInterface", "swampInterface", "fromTime", "toTime", "beaconType",
+		"order", "filters", "plan", "treasures", "residualFilters", "candidates", "err", "maxResults", "includeMap", "excludeMap",
+		"needsMeta", "matchCount", "treasureInterface", "key", "included", "excluded", "matched", "meta", "resp", "t", "err"})
+	where := where0
+	one := c08StreamFactsOf(f.Str(fd.Body), "maxResults")
+	// the per-query copy: the request is `query` there
+	many := c08StreamFactsOf(strings.ReplaceAll(strings.ReplaceAll(f2.Str(fm.Body), "query.", "in."), "var err error ", ""), "queryMax")
+	oneSrc := strings.ReplaceAll(f.Str(fd.Body), "var err error ", "")
+	if len(one) > 0 && len(c08StreamFactsOf(oneSrc, "maxResults")) > 0 {
+		one = c08StreamFactsOf(oneSrc, "maxResults")
+	}
+	for k, v := range one {
+		if mv, ok := many[k]; ok && mv == v {
+			fs.Tri(k, v, where)
+		} else {
+			fs.Tri(k, Unknown, whereM)
 		}
 	}
 }
@@ -219,6 +252,7 @@ func c08ExecFacts(fs *Facts, f *File) {
 	col := f.Func("", "collectBucketCandidates")
 	c07Canon(col, []string{"sw", "hints", "h", "seen", "out", "h", "hits", "t", "k", "dup"})
 	c07Canon(f.Func("", "applyTimeRange"), []string{"candidates", "beaconType", "fromTime", "toTime", "fromNs", "toNs", "out", "t", "ts"})
+	c07Canon(f.Func("", "applyTimeRange"), []string{"candidates", "beaconType", "fromTime", "toTime", "fromNs", "toNs", "hasFrom", "hasTo", "empty", "out", "t", "ts"})
 	c07Canon(f.Func("", "beaconTimeOf"), []string{"t", "beaconType"})
 	c07Canon(pre, []string{"beaconType"})
 	if col != nil {
@@ -239,6 +273,27 @@ func c08ExecFacts(fs *Facts, f *File) {
 	bt := f.Func("", "beaconTimeOf")
 	if tr != nil && sc != nil && bt != nil && strings.HasSuffix(f.Str(bt.Body), "} return 0 }") && !strings.Contains(f.Str(sc.Body), "== 0") {
 		src := f.Str(tr.Body)
+		// the conversion of the two bounds: as they are (UnixNano wraps outside 1677…2262) or through
+		// beacon.WindowNanos — it has to be the one the index read of the scan route uses
+		const rawConv = "var fromNs, toNs int64 if fromTime != nil { fromNs = fromTime.UnixNano() } if toTime != nil { toNs = toTime.UnixNano() }"
+		const chkConv = "fromNs, toNs, hasFrom, hasTo, empty := beacon.WindowNanos(fromTime, toTime) if empty { return candidates[:0] } if !hasFrom { fromTime = nil } if !hasTo { toTime = nil }"
+		bucketChecked := strings.Contains(src, chkConv) && !strings.Contains(src, "UnixNano()")
+		bucketRaw := strings.Contains(src, rawConv)
+		src = strings.Replace(strings.Replace(src, rawConv, "var fromNs", 1), chkConv, "var fromNs", 1)
+		if fb, err := Load(c08BeaconGo); err == nil {
+			if ft := fb.Func("beacon", "findTimeRangeBounds"); ft != nil {
+				c07Canon(ft, []string{"b", "fromTime", "toTime", "n", "fromNano", "toNano", "isAscending", "startIdx", "endIdx",
+					"l", "r", "m", "l", "r", "m", "l", "r", "m", "l", "r", "m"})
+				c07Canon(ft, []string{"b", "fromTime", "toTime", "n", "fromNano", "toNano", "hasFrom", "hasTo", "empty", "isAscending", "startIdx", "endIdx",
+					"l", "r", "m", "l", "r", "m", "l", "r", "m", "l", "r", "m"})
+				scanRaw := fb.Contains(ft.Body, "if fromTime != nil { fromNano = fromTime.UTC().UnixNano() } if toTime != nil { toNano = toTime.UTC().UnixNano() }")
+				scanChecked := fb.Contains(ft.Body, "fromNano, toNano, hasFrom, hasTo, empty := WindowNanos(fromTime, toTime) if empty { return 0, -1 } if !hasFrom { fromTime = nil } if !hasTo { toTime = nil }") &&
+					!fb.Contains(ft.Body, "UnixNano()")
+				if (bucketRaw && scanRaw && !bucketChecked && !scanChecked) || (bucketChecked && scanChecked && !bucketRaw && !scanRaw) {
+					fs.Tri("windowConversionAlike", Yes, c08At(c08Exec, f, tr))
+				}
+			}
+		}
 		loop := strings.Contains(src, "if fromTime != nil && ts < fromNs { continue } if toTime != nil && ts >= toNs { continue }")
 		where := c08At(c08Exec, f, tr)
 		switch {
@@ -355,4 +410,61 @@ func c08Shapes(fs *Facts) {
 			}
 		}
 	}
+}
+
+// the functions the shapes of the two stream handlers name
+var c08StreamVocabulary = []string{"collectBucketCandidates", "applyTimeRange", "sortCandidates", "applyFromLimit", "hasAnyLabels", "PlanFilter",
+	"bucketExecPreconditions", "parseOptionalTimestamps", "buildKeySet", "evaluateNativeFilterGroup", "evaluateNativeFilterGroupWithMeta",
+	"inputIndexTypeToBeaconType", "inputOrderTypeToBeaconOrderType", "checkSwampName", "treasureToKeyValuePair", "handlePanic"}
+
+// The residual is the group minus the hinted leg: cloneGroupHeader copies EVERY field of
+// hydrapb.FilterGroup (the list is read off the generated struct, so a new kind of leg is noticed),
+// removeFilterAt / removeSubGroupAt start from that copy and drop exactly position i.
+func c08ResidualCarriesAll(f *File) bool {
+	ch := f.Func("", "cloneGroupHeader")
+	rf := f.Func("", "removeFilterAt")
+	rs := f.Func("", "removeSubGroupAt")
+	if ch == nil || rf == nil || rs == nil {
+		return false
+	}
+	c07Canon(ch, []string{"g"})
+	c07Canon(rf, []string{"group", "i", "src", "out"})
+	c07Canon(rs, []string{"group", "i", "src", "out"})
+	pb, err := Load("sdk/go/hydraidego/hydraidepbgo/hydraide.pb.go")
+	if err != nil {
+		return false
+	}
+	var fields []string
+	ast.Inspect(pb.AST, func(x ast.Node) bool {
+		ts, ok := x.(*ast.TypeSpec)
+		if !ok || ts.Name.Name != "FilterGroup" {
+			return true
+		}
+		if st, ok := ts.Type.(*ast.StructType); ok {
+			for _, fl := range st.Fields.List {
+				for _, n := range fl.Names {
+					if n.IsExported() {
+						fields = append(fields, n.Name)
+					}
+				}
+			}
+		}
+		return false
+	})
+	if len(fields) < 3 {
+		return false
+	}
+	body := f.Str(ch.Body)
+	for _, fld := range fields {
+		if !strings.Contains(body, fld+": g.Get"+fld+"(),") {
+			return false
+		}
+	}
+	if strings.Count(body, ": g.Get") != len(fields) || !strings.HasPrefix(body, "{ return &hydrapb.FilterGroup{") {
+		return false
+	}
+	drop := func(fd *ast.FuncDecl, getter, field, elem string) bool {
+		return f.Str(fd.Body) == "{ src := group."+getter+"() if i < 0 || i >= len(src) { return cloneGroupHeader(group) } out := cloneGroupHeader(group) if len(src) <= 1 { out."+field+" = nil } else { out."+field+" = make([]*hydrapb."+elem+", 0, len(src)-1) out."+field+" = append(out."+field+", src[:i]...) out."+field+" = append(out."+field+", src[i+1:]...) } return out }"
+	}
+	return drop(rf, "GetFilters", "Filters", "TreasureFilter") && drop(rs, "GetSubGroups", "SubGroups", "FilterGroup")
 }
